@@ -137,6 +137,9 @@ func (w *world) universe(p *plan) []string {
 // required), and every MINIMAL set that meets it (exactly the documented requirement). Sets with the same accounts
 // are executed once. Unmet sets come first.
 func (w *world) setsFor(p *plan) []sset {
+	if p.role != nil {
+		return []sset{{"schedule", nil}}
+	}
 	u := w.universe(p)
 	var cand []sset
 	add := func(label string, atoms ...string) { cand = append(cand, sset{label, atoms}) }
@@ -558,6 +561,9 @@ func (w *world) execCell(contract, key string, set sset, fuzz string) string {
 	v := func(what, detail string) {
 		w.violation(site(w, m), what, cellID+": "+detail+"; documented requirement: "+p.doc)
 	}
+	if p.role != nil {
+		return w.execRoleChange(m, p, v)
+	}
 	if set.label == "quorum" {
 		return w.execQuorum(m, p, v)
 	}
@@ -835,7 +841,7 @@ func TestRun(t *testing.T) {
 		}
 	}
 	lite := map[string]bool{"balance.mint": true, "netmap.addPeerIR": true, "netmap.newEpoch": true, "neofsid.addKey": true, "reputation.put": true,
-		"container.delete": true, "neofs.setConfig": true, "neofs.innerRingCandidateRemove": true, "nns.setPrice": true, "nns.registerTLD": true, "alphabet.vote": true}
+		"container.delete": true, "audit.put": true, "neofs.setConfig": true, "neofs.innerRingCandidateRemove": true, "nns.setPrice": true, "nns.registerTLD": true, "alphabet.vote": true}
 	for ui, u := range units {
 		if ui%run.Shards != run.Shard {
 			continue
